@@ -295,8 +295,10 @@ class Run:
                       {"theorems": thms, "commands": n_pa, "closed": closed, "out": out[-2000:]})
         if thorough_coqchk and ok:
             t = time.time()
-            rc2, out2 = sh(f"timeout 900 coqchk -silent -o -R {COQ} Spox -R {sc} Scratch Scratch.{dst.stem}", cwd=sc, timeout=930)
-            self.cov["coqchk"] = {"rc": rc2, "tail": out2[-600:], "wall_s": round(time.time() - t, 1)}
+            lib = "Spox." + props_file[:-2].replace("/", ".")
+            rc2, out2 = sh(f"timeout 1500 coqchk -silent -o -R {COQ} Spox {lib}", cwd=COQ, timeout=1530)
+            ax = re.findall(r"^\* Axioms:\s*\n((?:\s+.+\n?)*)", out2, re.M)
+            self.cov["coqchk"] = {"rc": rc2, "library": lib, "tail": out2[-800:], "wall_s": round(time.time() - t, 1)}
             if rc2 != 0:
                 ok = False
                 self.fail("proof", "coqchk", "coqchk rejected the compiled property file", out2[-2000:])
